@@ -23,6 +23,7 @@ if sys.argv[1] == "import":
         pid = src.split("/")[3][:3]; k = os.path.basename(src)
         if not os.path.exists(src + "/patch.diff") or not os.path.exists(src + "/meta.json"): continue
         d = os.path.join(ROOT, "harmless", pid, "%s-n%s" % (pid, k)); os.makedirs(d, exist_ok=True)
+        if os.path.exists(d + "/meta.json"): continue          # never overwrite recorded results
         shutil.copy(src + "/patch.diff", d); shutil.copy(src + "/meta.json", d)
         print(d, targets(d))
 elif sys.argv[1] == "shard":
